@@ -35,8 +35,8 @@ Theorem C10_meaning :
     | [] =>
         let kept := filter (fun f => negb (g_ignore (ha_debug (fe_hattrs f)))) fs in
         match shape_of src with
-        | ShNamed => FmtStruct V name (map (fun f => (member_text (fe_member f), v_field a (fe_index f))) kept)
-        | _ => FmtTuple V name (map (fun f => v_field a (fe_index f)) kept)
+        | ShNamed => FmtStruct V (unraw name) (map (fun f => (member_text (fe_member f), v_field a (fe_index f))) kept)
+        | _ => FmtTuple V (unraw name) (map (fun f => v_field a (fe_index f)) kept)
         end
     end.
 Proof.
